@@ -1123,7 +1123,7 @@ def alloc_templates():
     T('args-array', 'xs[0] = 7; int[] a = [xs[0], xs[1]]; sleep(a[0] + a[1]);', sig='int[] xs', xs=2)
     # state addresses on both sides of the sign bit of a 16-bit word: at the largest accepted stack the entry frame ends at 32770, and the
     # 30000-byte global lies wholly above 32767 (address arithmetic and every guard must be unsigned)
-    T('high-addresses', "big[29999] = x is byte; big[y % 4 + 100] = 'm'; int[] a = [x, y, 3]; byte[] b = ['p', y is byte]; sleep(r(x % 3)); sleep(a[1]); write(b[1]); write(big[29999]); write(big[100 + y % 4]); sleep(a[0]); write(tab[x % 2]); write(gmsg); gmsg[3] = y is byte; write(gmsg); write(smsg);",
+    T('high-addresses', "write(gmsg); write(smsg); big[29999] = x is byte; big[y % 4 + 100] = 'm'; int[] a = [x, y, 3]; byte[] b = ['p', y is byte]; sleep(r(x % 3)); sleep(a[1]); write(b[1]); write(big[29999]); write(big[100 + y % 4]); sleep(a[0]); write(tab[x % 2]); write(gmsg); gmsg[3] = y is byte; write(gmsg); write(smsg);",
       extra='byte[] gmsg = [104, 101, 108, 108, 111, 119, 111, 114, 108, 100];\nstring smsg = "state";\nbyte big[30000];\nconst byte[] tab = [7, 9];\nint r(int n) { int[] t = [n, 2]; if (n <= 0) { return t[1]; } return r(n - 1) + t[0]; }\n')
     T('spec', 'int[] a = [1, 2]; sleep(h(x) ?? y); sleep(a[1]);', extra='int h(int v) { int[] t = [v, v, v]; return t[2]; }\n')
     return out
